@@ -1154,7 +1154,8 @@ Lemma build_indices_spec : forall rest mm c,
      m_entries mm' = m_entries mm /\ m_size mm' = m_size mm /\ m_usable mm' = m_usable mm.
 Proof.
   induction rest as [|ep rest IH]; intros mm c HT Hnth Hu Hl Hok Hkeys.
-  - exists mm. cbn [build_indices]. unfold lenZ. cbn [length]. rewrite Z.add_0_r. repeat split; auto.
+  - exists mm. split; [reflexivity|]. split; [|split; [reflexivity|split; reflexivity]].
+    replace (c + lenZ (@nil entry)) with c by (unfold lenZ; cbn [length]; lia). exact HT.
   - unfold lenZ in *. cbn [length] in *. rewrite Nat2Z.inj_succ in *.
     pose proof (ti_n _ _ HT) as Hc.
     assert (Hep : ep = get_entry mm c).
@@ -1167,9 +1168,12 @@ Proof.
     assert (Hnar : narrow (m_size mm) c = c) by (apply narrow_id; [apply (ti_pow _ _ HT)|lia]).
     set (mm1 := set_index mm s c).
     assert (HT1 : TInv mm1 (c + 1)).
-    { apply TInv_place with (m := mm) (s := s) (e := get_entry mm c); try assumption; try reflexivity; try lia.
+    { refine (TInv_place mm c mm1 s (get_entry mm c) HT eq_refl _ _ Hs _ _ _ Hlive Hhash Hval _ _).
       - unfold mm1. cbn. now rewrite Hnar.
-      - unfold mm1. cbn [m_entries set_index]. unfold get_entry. symmetry. apply updZ_same. lia.
+      - unfold mm1. cbn [m_entries set_index]. unfold get_entry. symmetry. apply updZ_same. unfold lenZ. lia.
+      - lia.
+      - unfold lenZ. lia.
+      - lia.
       - intros ix Hix _ Hk. assert (ix = c); [|lia]. apply Hkeys; try lia. exact Hk.
       - exists k. rewrite <- Hep. split; assumption. }
     destruct (IH mm1 (c + 1) HT1) as [mm' [Hb [HT' [He [Hsz Hus]]]]].
@@ -1185,11 +1189,14 @@ Proof.
       * repeat split; assumption.
 Qed.
 
+Lemma filter_len_le {A} (f : A -> bool) l : (length (filter f l) <= length l)%nat.
+Proof. induction l as [|x r IH]; cbn; [lia|]. destruct (f x); cbn; lia. Qed.
+
 Lemma filter_all {A} (f : A -> bool) l : length (filter f l) = length l -> filter f l = l.
 Proof.
   induction l as [|x r IH]; cbn; [reflexivity|]. destruct (f x) eqn:E; cbn; intros H.
   - f_equal. apply IH. lia.
-  - pose proof (filter_length_le f r). lia.
+  - pose proof (filter_len_le f r). lia.
 Qed.
 
 Lemma filter_keys_nodup : forall l,
@@ -1271,12 +1278,12 @@ Proof.
     rewrite <- (Z2Nat.id i), <- (Z2Nat.id j) by lia. rewrite !Hge1 by lia. intros Hk.
     assert (Z.to_nat i = Z.to_nat j); [|lia].
     apply (proj1 (NoDup_nth (map e_key moved) []) Hnd); try (rewrite map_length; lia).
-    rewrite !(nth_indep _ [] (e_key blank_entry)) by (rewrite map_length; lia).
-    rewrite !map_nth. exact Hk.
+    change (@nil Z) with (e_key blank_entry). rewrite !map_nth. exact Hk.
   - rewrite Hb. rewrite Z.add_0_l in HT2. unfold lenZ in HT2. rewrite Hmovedlen in HT2.
     eexists. split; [reflexivity|].
     match goal with |- Inv ?mm /\ _ => set (m' := mm) end.
-    assert (HT' : TInv m' (m_used m)) by (apply TInv_ext with (m := nk2); [assumption|reflexivity..]).
+    assert (HT' : TInv m' (m_used m)).
+    { apply TInv_ext with (m := nk2); [assumption| |reflexivity|reflexivity]. cbn [m_size m']. now rewrite Hs2. }
     assert (Hge' : forall j, (j < length moved)%nat -> get_entry m' (Z.of_nat j) = nth j moved blank_entry).
     { intros j Hj. rewrite <- Hge1 by assumption. unfold get_entry. cbn [m_entries m']. now rewrite He2. }
     assert (HI' : Inv m').
@@ -1299,8 +1306,226 @@ Proof.
       destruct (find_val_cases m k Hn) as [[ix [Hix [Hl [Hk Hv]]]]|[HA Hva]].
       * left. assert (Hine : In (get_entry m ix) moved) by (apply Hin; exists ix; auto).
         destruct (In_nth _ _ blank_entry Hine) as [j [Hj Hnj]].
-        exists (Z.of_nat j). rewrite Hge' by assumption. rewrite Hnj. repeat split; try assumption; lia.
-      * right. split; [|assumption]. intros j Hj. rewrite <- (Z2Nat.id j) by lia. rewrite Hge' by lia.
+        exists (Z.of_nat j). rewrite Hge' by assumption. rewrite Hnj.
+        split; [change (m_nentries m') with (m_used m); lia|]. repeat split; assumption.
+      * right. split; [|assumption]. intros j Hj. change (m_nentries m') with (m_used m) in Hj.
+        rewrite <- (Z2Nat.id j) by lia. rewrite Hge' by lia.
         intros _. assert (Hine : In (nth (Z.to_nat j) moved blank_entry) moved) by (apply nth_In; lia).
         apply Hin in Hine. destruct Hine as [ix [Hix [Heq Hl]]]. rewrite Heq. apply HA; [assumption|]. now rewrite <- Heq.
 Qed.
+
+(* ------------------------------------------------------------------------- *)
+(** * cgi_map_set_item, complete *)
+
+Lemma find_val_m1_absent m k : TInv m (m_nentries m) -> find_val m k = -1 -> Absent m k.
+Proof.
+  intros HT Hv. destruct (find_val_cases m k (ti_n _ _ HT)) as [[ix [Hix [Hl [Hk Hval]]]]|[HA _]]; [|exact HA].
+  rewrite Hv in Hval. unfold live in Hl. rewrite Hval in Hl. discriminate.
+Qed.
+
+Lemma Inv_new_keys p : 3 <= p <= 60 -> Inv (new_keys_object (2 ^ p)) /\
+  forall k, find_val (new_keys_object (2 ^ p)) k = -1.
+Proof.
+  intros Hp. assert (Hpos : 0 < 2 ^ p) by (apply pow2_pos; lia).
+  assert (Hu : 0 <= USABLE_FRACTION (2 ^ p)) by (unfold USABLE_FRACTION; lia).
+  split; [|reflexivity]. unfold new_keys_object. constructor; cbn [m_static m_size m_usable m_nentries m_entries m_used].
+  - reflexivity.
+  - apply TInv_fresh with (p := p); [assumption|reflexivity].
+  - unfold lenZ. rewrite repeat_length. lia.
+  - lia.
+  - reflexivity.
+Qed.
+
+Lemma usable_after_growth used newsize : 0 <= used -> 8 <= newsize -> 2 * used <= newsize ->
+  used < USABLE_FRACTION newsize.
+Proof. intros. unfold USABLE_FRACTION. lia. Qed.
+
+Theorem set_item_correct m k v : WF m -> 0 <= v -> m_used m < 2 ^ 57 ->
+  exists m', map_set_item m k v = Some (m', 0) /\ WF m' /\
+    (forall k', find_val m' k' = if key_eqb k' k then v else find_val m k') /\
+    m_used m' <= m_used m + 1.
+Proof.
+  intros [->|HI] Hv Hbound; unfold map_set_item.
+  - (* the static empty keys: cgi_insert_to_emptymap *)
+    cbn [m_static empty_map]. unfold insert_to_emptymap, MAP_MINSIZE. change (8 - 1) with 7.
+    destruct (Inv_new_keys 3 ltac:(lia)) as [HI0 _]. change (2 ^ 3) with 8 in HI0.
+    pose proof (inv_t _ HI0) as HT0. change (m_nentries (new_keys_object 8)) with 0 in HT0.
+    set (hash := hash_cstr k). set (s := Z.land hash 7).
+    assert (Hs : 0 <= s < 8).
+    { unfold s. change 7 with (2 ^ 3 - 1). rewrite land_mask by lia. apply Z.mod_pos_bound. lia. }
+    assert (Hnar : narrow 8 0 = 0) by (apply narrow_id; [exists 3; split; [lia|reflexivity]|unfold USABLE_FRACTION; cbn; lia]).
+    set (e := mkE hash k v).
+    eexists. split; [reflexivity|].
+    match goal with |- WF ?mm /\ _ => set (m' := mm) end.
+    assert (Hlive : live e = true) by (unfold live, e; cbn; destruct (Z.eqb_spec v (-1)); [lia|reflexivity]).
+    assert (Hgi0 : get_index (new_keys_object 8) s = -1).
+    { unfold get_index. cbn [m_indices new_keys_object]. apply nthZ_repeat. lia. }
+    assert (HT' : TInv m' (0 + 1)).
+    { refine (TInv_place (new_keys_object 8) 0 m' s e HT0 eq_refl _ eq_refl Hs _ _ _ Hlive eq_refl Hv _ _).
+      - unfold m'. cbn [m_indices set_entry set_index]. cbn [m_size new_keys_object]. now rewrite Hnar.
+      - lia.
+      - vm_compute. reflexivity.
+      - vm_compute. discriminate.
+      - intros ix Hix. lia.
+      - exists 0%nat. split; [|intros j Hj; lia].
+        change (slot_seq (mask_of (new_keys_object 8)) (e_hash e) 0) with (probe_start 7 hash).
+        unfold probe_start. cbn [fst]. reflexivity. }
+    assert (Hge : forall i, get_entry m' i = if i =? 0 then e else get_entry (new_keys_object 8) i).
+    { intros i. apply get_entry_upd; [reflexivity|]. split; [lia|vm_compute; reflexivity]. }
+    assert (HI' : Inv m').
+    { constructor.
+      - reflexivity.
+      - exact HT'.
+      - reflexivity.
+      - reflexivity.
+      - change (m_used m') with 1. unfold live_entries. change (m_nentries m') with 1.
+        change (firstn (Z.to_nat 1) (m_entries m')) with [e]. unfold count_live. cbn [filter].
+        rewrite Hlive. reflexivity. }
+    split; [now right|]. split; [|cbn [m_used m' empty_map]; lia].
+    intros k'. apply find_val_intro; [exact HT'|]. change (m_nentries m') with 1.
+    destruct (key_eqb k' k) eqn:Ek.
+    + apply key_eqb_eq in Ek. subst k'. left. exists 0. rewrite Hge. cbn [Z.eqb].
+      split; [change (m_nentries m') with 1; lia|]. split; [exact Hlive|]. split; reflexivity.
+    + right. split; [|reflexivity]. intros ix Hix. change (m_nentries m') with 1 in Hix.
+      assert (ix = 0) by lia. subst ix. rewrite Hge. cbn [Z.eqb].
+      intros _. unfold e. cbn. intros ->. rewrite key_eqb_refl in Ek. discriminate.
+  - rewrite (inv_dyn _ HI). pose proof (inv_t _ HI) as HT. pose proof (ti_n _ _ HT) as Hn.
+    destruct (find_val_cases m k Hn) as [[ix [Hix [Hl [Hk Hval]]]]|[HA Hva]].
+    + destruct (set_present m k v ix HI Hv Hix Hl Hk) as [m' [H1 [H2 H3]]].
+      exists m'. split; [exact H1|]. split; [now right|]. split; [exact H3|].
+      (* used is unchanged *)
+      unfold insert_key in H1. rewrite (name_lookup_present _ _ HT ix k Hix Hl Hk) in H1.
+      unfold MAPIX_EMPTY in H1. destruct (Z.eqb_spec ix (-1)); [lia|].
+      destruct (negb (e_val (get_entry m ix) =? v)); inversion H1; subst; cbn; lia.
+    + unfold insert_key. rewrite (name_lookup_absent _ _ HT k HA). cbn [Z.eqb MAPIX_EMPTY].
+      change (-1 =? -1) with true. cbv iota.
+      assert (Hused0 : 0 <= m_used m).
+      { rewrite (inv_used _ HI). unfold count_live, lenZ. lia. }
+      destruct (Z.leb_spec (m_usable m) 0) as [Hfull|Hroom].
+      * (* grow first *)
+        unfold insertion_resize.
+        destruct (keysize_spec (m_used m * 2)) as [p [Hp [Hks Hge]]].
+        { split; [lia|]. change (2 ^ 58) with (2 * 2 ^ 57). lia. }
+        assert (H8 : 8 <= 2 ^ p) by (change 8 with (2 ^ 3); apply Z.pow_le_mono_r; lia).
+        destruct (resize_spec m (calculate_keysize (m_used m * 2)) p HI Hp Hks) as [m1 [Hr [HI1 [Hroom1 Hfv]]]].
+        { rewrite Hks. apply usable_after_growth; lia. }
+        rewrite Hr. destruct (Z.ltb_spec 0 0); [lia|].
+        assert (HA1 : Absent m1 k) by (apply find_val_m1_absent; [apply (inv_t _ HI1)|rewrite Hfv; exact Hva]).
+        destruct (set_absent_room m1 k v HI1 Hv HA1 Hroom1) as [m' [H1 [H2 H3]]].
+        exists m'. split; [exact H1|]. split; [now right|]. split.
+        -- intros k'. rewrite H3, Hfv. reflexivity.
+        -- assert (Hu1 : m_used m1 = m_used m).
+           { unfold resize in Hr. destruct (calculate_keysize (m_used m * 2) <=? 0); [inversion Hr; reflexivity|].
+             cbv zeta in Hr. destruct (build_indices _ _ _); [|discriminate]. inversion Hr. reflexivity. }
+           destruct (find_empty_slot m1 (hash_cstr k)); [|discriminate]. inversion H1. cbn. lia.
+      * destruct (Z.ltb_spec 0 0); [lia|].
+        destruct (set_absent_room m k v HI Hv HA Hroom) as [m' [H1 [H2 H3]]].
+        exists m'. split; [exact H1|]. split; [now right|]. split; [exact H3|].
+        destruct (find_empty_slot m (hash_cstr k)); [|discriminate]. inversion H1. cbn. lia.
+Qed.
+
+(* ------------------------------------------------------------------------- *)
+(** * Every history behaves like an association with delete-and-renumber *)
+
+Definition amap := list Z -> Z.          (* key -> value, -1 = absent *)
+Definition a_empty : amap := fun _ => -1.
+Definition a_set (f : amap) k v : amap := fun k' => if key_eqb k' k then v else f k'.
+Definition a_del (f : amap) k : amap :=
+  fun k' => if key_eqb k' k then -1 else let v' := f k' in if f k <? v' then v' - 1 else v'.
+
+Definition spec_step (f : amap) (o : mop) : amap * Z :=
+  match o with
+  | MSet k v => (a_set f k v, 0)
+  | MGet k => (f, f k)
+  | MHas k => (f, if f k =? -1 then 0 else 1)
+  | MDel k => if f k =? -1 then (f, -1) else (a_del f k, 0)
+  | MClear => (a_empty, 0)
+  | MPresize _ => (a_empty, 0)
+  end.
+
+Fixpoint spec_run (f : amap) (ops : list mop) : list Z :=
+  match ops with [] => [] | o :: r => let '(f', x) := spec_step f o in x :: spec_run f' r end.
+
+Fixpoint run (m : hmap) (ops : list mop) : option (list Z) :=
+  match ops with
+  | [] => Some []
+  | o :: r => match mstep m o with
+              | None => None
+              | Some (m', x) => option_map (cons x) (run m' r)
+              end
+  end.
+
+(* the side conditions under which the C code is specified: stored values are indices (>= 0),
+   presize requests are sane, and the table stays below 2^57 entries *)
+Definition op_ok (o : mop) : Prop :=
+  match o with MSet _ v => 0 <= v | MPresize n => 0 <= n < 2 ^ 56 | _ => True end.
+
+Lemma WF_presized n : 0 <= n < 2 ^ 56 ->
+  WF (new_presized_hashmap n) /\ (forall k, find_val (new_presized_hashmap n) k = -1) /\
+  m_used (new_presized_hashmap n) = 0.
+Proof.
+  intros Hn. unfold new_presized_hashmap, new_hashmap.
+  destruct (n <=? USABLE_FRACTION MAP_MINSIZE); [split; [now left|split; reflexivity]|].
+  destruct (USABLE_FRACTION (128 * 1024) <? n).
+  - destruct (Inv_new_keys 17 ltac:(lia)) as [H1 H2]. change (2 ^ 17) with (128 * 1024) in *.
+    split; [now right|]. split; [exact H2|reflexivity].
+  - unfold estimate_keysize. destruct (keysize_spec ((n * 3 + 1) / 2)) as [p [Hp [Hk _]]].
+    + change (2 ^ 56) with 72057594037927936 in Hn. change (2 ^ 58) with 288230376151711744. lia.
+    + rewrite Hk. destruct (Inv_new_keys p Hp) as [H1 H2]. split; [now right|]. split; [exact H2|reflexivity].
+Qed.
+
+Lemma mstep_correct m f o : WF m -> (forall k, find_val m k = f k) -> op_ok o -> m_used m < 2 ^ 57 ->
+  exists m', mstep m o = Some (m', snd (spec_step f o)) /\ WF m' /\
+    (forall k, find_val m' k = fst (spec_step f o) k) /\ m_used m' <= m_used m + 1.
+Proof.
+  intros HW Hf Hok Hb.
+  assert (Hused0 : 0 <= m_used m).
+  { destruct HW as [->|HI]; [cbn; lia|]. rewrite (inv_used _ HI). unfold count_live, lenZ. lia. }
+  destruct o as [k v|k|k|k| |n]; cbn [mstep spec_step op_ok] in *.
+  - destruct (set_item_correct m k v HW Hok Hb) as [m' [H1 [H2 [H3 H4]]]].
+    exists m'. repeat split; try assumption. intros k'. rewrite H3. unfold a_set. now rewrite Hf.
+  - rewrite (get_item_correct m k HW). cbn. exists m. rewrite Hf. repeat split; try assumption; lia.
+  - rewrite (contains_correct m k HW). cbn. exists m. rewrite Hf. repeat split; try assumption; lia.
+  - destruct (del_item_correct m k HW) as [m' [rc [H1 [H2 [H3 H4]]]]]. rewrite H1. rewrite <- Hf.
+    assert (Hused : m_used m' <= m_used m + 1).
+    { unfold map_del_shift_item, del_shift_gen in H1.
+      destruct (name_lookup m k (hash_cstr k)) as [[ix old]|]; [|discriminate].
+      destruct ((ix =? MAPIX_EMPTY) || (old =? -1)); [inversion H1; lia|].
+      destruct (index_lookup m (hash_cstr k) ix); [|discriminate]. inversion H1. cbn. lia. }
+    destruct (Z.eqb_spec (find_val m k) (-1)) as [E|E].
+    + destruct (H3 E) as [-> ->]. exists m. repeat split; try assumption; lia.
+    + destruct (H4 E) as [-> H5]. exists m'. repeat split; try assumption.
+      intros k'. rewrite H5. unfold a_del. cbv zeta. now rewrite !Hf.
+  - exists empty_map. repeat split; try (now left); try reflexivity. cbn [m_used empty_map]. lia.
+  - destruct (WF_presized n Hok) as [H1 [H2 H3]]. exists (new_presized_hashmap n).
+    repeat split; try assumption. rewrite H3. lia.
+Qed.
+
+Theorem run_refines : forall ops m f,
+  WF m -> (forall k, find_val m k = f k) -> Forall op_ok ops ->
+  m_used m + lenZ ops < 2 ^ 57 ->
+  run m ops = Some (spec_run f ops).
+Proof.
+  induction ops as [|o r IH]; intros m f HW Hf Hok Hb; cbn [run spec_run]; [reflexivity|].
+  inversion Hok as [|? ? Ho Hr]; subst.
+  unfold lenZ in Hb. cbn [length] in Hb. rewrite Nat2Z.inj_succ in Hb.
+  assert (Hused0 : 0 <= m_used m).
+  { destruct HW as [->|HI]; [cbn; lia|]. rewrite (inv_used _ HI). unfold count_live, lenZ. lia. }
+  destruct (mstep_correct m f o HW Hf Ho ltac:(lia)) as [m' [H1 [H2 [H3 H4]]]].
+  rewrite H1. destruct (spec_step f o) as [f' x] eqn:E. cbn [fst snd] in *.
+  rewrite (IH m' f' H2 H3 Hr); [reflexivity|]. unfold lenZ. lia.
+Qed.
+
+Corollary run_from_empty ops : Forall op_ok ops -> lenZ ops < 2 ^ 57 ->
+  run empty_map ops = Some (spec_run a_empty ops).
+Proof.
+  intros H Hl. apply run_refines; [now left|reflexivity|assumption|cbn; lia].
+Qed.
+
+(* the historical defect: with the loop bound map_usable the renumbering misses entries *)
+Lemma old_bound_refuted :
+  let ks := [[65]; [66]; [67]; [68]] in
+  exists m, fold_left (fun om kv => match om with Some m => option_map fst (map_set_item m (fst kv) (snd kv)) | None => None end)
+                      (combine ks [0; 1; 2; 3]) (Some empty_map) = Some m /\
+  exists m', map_del_shift_item_old m [65] = Some (m', 0) /\ map_get_item m' [66] = Some 1.
+Proof. vm_compute. eexists. split; [reflexivity|]. eexists. split; reflexivity. Qed.
